@@ -379,7 +379,7 @@ class World:
         return (self.cfg["entry"], bool(self.cfg["override"]), None if s is None else (norm(s.encoding), len(s.cssRules)))
 
 
-CHARS = ["ä", "é", "€", "ж", "中", "\U0001f600", "ÿ", "Δ"]
+CHARS = ["ä", "é", "€", "ж", "中", "\U0001f600", "ÿ", "Δ", "\ud800", "\\dfff ", "\U0010ffff"]  # incl. lone surrogates: no encoding represents them
 
 
 def gen_op(r, w, i):
